@@ -43,3 +43,4 @@ def run(ctx, R):
 
 
 META['level'] += ' Durations are converted with total_seconds() (TIMEDELTA-TOTAL).'
+META['level'] += ' TICK-PERIOD never-exits: the loop of a tick coroutine cannot be left.'
